@@ -67,7 +67,12 @@ impl DcpsDomainParticipant {
             0,
             USER_DEFINED_WRITER_GROUP,
         ]);
-        self.publisher_counter += 1;
+        // The counter only ever grows: refuse the creation once every value has been handed out
+        // instead of overflowing (debug) or reusing the handle of a live publisher (release).
+        self.publisher_counter = self
+            .publisher_counter
+            .checked_add(1)
+            .ok_or(DdsError::OutOfResources)?;
         let data_writer_list = Default::default();
         let listener_sender = dcps_listener.map(|l| l.spawn(&runtime.spawner()));
         let mut publisher = PublisherEntity::new(
@@ -157,7 +162,10 @@ impl DcpsDomainParticipant {
             0,
             USER_DEFINED_READER_GROUP,
         ]);
-        self.subscriber_counter += 1;
+        self.subscriber_counter = self
+            .subscriber_counter
+            .checked_add(1)
+            .ok_or(DdsError::OutOfResources)?;
 
         let listener_sender = dcps_listener.map(|l| l.spawn(&runtime.spawner()));
         let mut subscriber = UserDefinedSubscriber::new(
@@ -269,7 +277,11 @@ impl DcpsDomainParticipant {
             self.domain_participant.topic_counter.to_ne_bytes()[1],
             USER_DEFINED_TOPIC,
         ]);
-        self.domain_participant.topic_counter += 1;
+        self.domain_participant.topic_counter = self
+            .domain_participant
+            .topic_counter
+            .checked_add(1)
+            .ok_or(DdsError::OutOfResources)?;
         let listener_sender = dcps_listener.map(|l| l.spawn(&runtime.spawner()));
         let topic = TopicEntity::new(
             qos,
@@ -389,7 +401,11 @@ impl DcpsDomainParticipant {
             self.domain_participant.topic_counter.to_ne_bytes()[1],
             USER_DEFINED_TOPIC,
         ]);
-        self.domain_participant.topic_counter += 1;
+        self.domain_participant.topic_counter = self
+            .domain_participant
+            .topic_counter
+            .checked_add(1)
+            .ok_or(DdsError::OutOfResources)?;
 
         let topic = ContentFilteredTopicEntity::new(
             name,
